@@ -16,9 +16,9 @@ import (
 	"github.com/Nextdoor/pg-bifrost.git/transport"
 	gbatch "github.com/Nextdoor/pg-bifrost.git/transport/batch"
 	"github.com/Nextdoor/pg-bifrost.git/transport/progress"
+	"github.com/Nextdoor/pg-bifrost.git/transport/transporters/kafka"
 	kbatch "github.com/Nextdoor/pg-bifrost.git/transport/transporters/kinesis/batch"
 	kutils "github.com/Nextdoor/pg-bifrost.git/transport/transporters/kinesis/utils"
-	"github.com/Nextdoor/pg-bifrost.git/transport/transporters/kafka"
 	"github.com/Shopify/sarama"
 	"github.com/aws/aws-sdk-go/service/kinesis"
 	"github.com/cevaris/ordered_map"
